@@ -93,6 +93,16 @@ static void run_drift(const Case& c) {
     print_table(dm.table(), dm.rows(), dm.ip());
     dm.apply();
     print_data("out", out->getData(), static_cast<size_t>(n) * n * nb);
+    if (!c.parts.empty()) {
+        // tracked particles moved by the drift map
+        std::cout << "parts";
+        for (auto p : c.parts) {
+            PhaseSpace::Position pos{p.first, p.second};
+            dm.applyTo(pos);
+            std::cout << ' ' << hx(pos.x) << ' ' << hx(pos.y);
+        }
+        std::cout << '\n';
+    }
 }
 
 // coeffsweep <id> <it> <lo> <hi> <stride> : all binary32 f with bit patterns lo..hi (step stride),
